@@ -1259,17 +1259,24 @@ class Stack(list):
 
         :return bool:
         """
-        # TODO: Implement
-        # if sequence == 0xffffffff:
-        #     return False
-        # locktime = decode_num(self[-1])
-        # if locktime < 0:
-        #     return False
-        # if locktime != 0xffffffff:
-        #     if version < 2:
-        #         return False
-        # return True
-        return NotImplementedError
+        if len(self[-1]) > 5:
+            return False
+        locktime = decode_num(self[-1])
+        if locktime < 0:
+            return False
+        if locktime & (1 << 31):
+            # disable flag set in operand: behaves as a NOP
+            return True
+        if version < 2:
+            return False
+        if sequence & (1 << 31):
+            return False
+        # same lock type (blocks or 512 second units), masked operand not greater than masked sequence
+        if (locktime & (1 << 22)) != (sequence & (1 << 22)):
+            return False
+        if (locktime & 0xffff) > (sequence & 0xffff):
+            return False
+        return True
 
     def op_nop4(self):
         return True
